@@ -1,5 +1,5 @@
 PROP = {
-    "groups": ["guards", "hostile", "scanners"],
+    "groups": ["guards", "hostile", "handshake", "scanners"],
     "gen": ["guards", "Skel_guards.v"],
     "timeout": 600,
     "rule": "guards: the real pipelineRecvBinaryData / recvData / recvPrefixHash / recvConfig / pipelineRecvCurrentAck / "
